@@ -800,8 +800,72 @@ func (g gen) value(ti tyInfo) ([]fv, map[string]any, []string) {
 			}
 		}
 		tags = append(tags, "custom=set", "collide="+coll)
+		if g.r.Chance(1, 5) && g.addCaseVariants(ti, vals, claims, 1+g.r.IntN(2)) > 0 {
+			tags = append(tags, "fxx-c12-1=case-variant-key")
+		}
 	}
 	return vals, claims, tags
+}
+
+// isEmpty mirrors encoding/json's omitempty test on the model value.
+func (v fv) isEmpty() bool {
+	switch v.kind {
+	case "KStr":
+		return v.s == ""
+	case "KTime":
+		return v.z == 0
+	case "KAud", "KStrs", "KSDA":
+		return len(v.strs) == 0
+	case "KBool", "KBoolS":
+		return !v.b
+	case "KLocale":
+		return v.loc == nil
+	case "KActor":
+		return v.act == nil
+	case "KAddr":
+		return v.addr == nil
+	case "KMap":
+		return len(v.m) == 0
+	}
+	return true
+}
+
+// caseVariant returns a key that encoding/json matches to the member `name`
+// although it is not that name: ASCII case, U+017F for s, U+212A for k.
+func (g gen) caseVariant(name string) string {
+	var opts []string
+	opts = append(opts, strings.ToUpper(name), strings.ToUpper(name[:1])+name[1:])
+	if i := strings.IndexByte(name, 's'); i >= 0 {
+		opts = append(opts, name[:i]+"\u017f"+name[i+1:])
+	}
+	if i := strings.IndexByte(name, 'k'); i >= 0 {
+		opts = append(opts, name[:i]+"\u212a"+name[i+1:])
+	}
+	return drv.Pick(g.r, opts)
+}
+
+// addCaseVariants adds custom keys that are case variants of members that are
+// written (set or not omitempty); returns how many were added.
+func (g gen) addCaseVariants(ti tyInfo, vals []fv, claims map[string]any, n int) int {
+	var present []fieldInfo
+	for i, f := range ti.Schema {
+		if !(f.Omit && vals[i].isEmpty()) {
+			present = append(present, f)
+		}
+	}
+	if len(present) == 0 {
+		return 0
+	}
+	added := 0
+	for ; n > 0; n-- {
+		f := drv.Pick(g.r, present)
+		k := g.caseVariant(f.Name)
+		if k != f.Name {
+			claims[k] = g.typedJSON(f.Kind)
+			added++
+		}
+	}
+	return added
 }
 
 func build(ti tyInfo, vals []fv, claims map[string]any) reflect.Value {
@@ -853,6 +917,21 @@ func codecCases(w *emit.Writer, r drv.Rand, n int) {
 	}
 	// the F01 input of DESIGN.md section 6, always present
 	decK(w, "KAud", "arr-str-num", []any{"a", 1.0}, []string{"f01=aud-nonstring"})
+	// the Fxx-C12-1 input: custom keys that encoding/json folds onto set members
+	for _, ti := range []tyInfo{types[1], types[7]} {
+		vals := make([]fv, len(ti.Schema))
+		for i, f := range ti.Schema {
+			vals[i] = fv{kind: f.Kind}
+			if f.Name == "iss" {
+				vals[i].s = "https://issuer.example.com"
+			}
+			if f.Name == "sub" {
+				vals[i].s = "alice"
+			}
+		}
+		roundCaseWith(w, ti, vals, map[string]any{"i\u017fs": "https://evil.example", "\u017fub": "mallory", "ISS": "x", "role": "r"},
+			[]string{"custom=set", "collide=none", "fxx-c12-1=case-variant-key"})
+	}
 	for i := 0; i < n; i++ {
 		ti := types[i%len(types)]
 		switch (i / len(types)) % 5 {
@@ -870,6 +949,10 @@ func codecCases(w *emit.Writer, r drv.Rand, n int) {
 
 func roundCase(w *emit.Writer, g gen, ti tyInfo) {
 	vals, claims, tags := g.value(ti)
+	roundCaseWith(w, ti, vals, claims, tags)
+}
+
+func roundCaseWith(w *emit.Writer, ti tyInfo, vals []fv, claims map[string]any, tags []string) {
 	in := build(ti, vals, claims)
 	inClaims := objterm(genericObj(claims)) // before Marshal (JWTTokenRequest.MarshalJSON writes into its map)
 	var doc any
